@@ -77,6 +77,8 @@ def property_loops(F):
                     info['calls'].append(nm.split('::')[-1])
                 # guarded single assignment (is_none check) counts as once-only as well
                 info['once'] = (info['decoder'] == 'read_value') or any(c == 'is_none' or c == 'is_some' for c in info['calls'])
+                # an explicit refusal inside the arm that is decided by how many values were already collected
+                info['counted_refusal'] = any(c in ('is_empty', 'len', 'is_none', 'is_some', 'contains') for c in info['calls']) and any(bi in reg for bi, j, s in agg_sites(b, r'^std::result::Result$', 'Err'))
                 table[v] = info
             oth = b.reachable(t['otherwise'], avoid=(targets - {t['otherwise']}) | {src[0]} | above)
             errs = [bi for bi, j, s in agg_sites(b, r'^std::result::Result$', 'Err') if bi in oth]
